@@ -298,6 +298,10 @@ def val2bytes(val, att: str) -> bytes:
     elif atttyp(att) == "R":  # floating point
         valb = struct.pack("<f" if attsiz(att) == 4 else "<d", float(val))
     elif atttyp(att) == "A":  # array of unsigned integers
+        if len(val) != attsiz(att):
+            raise ValueError(
+                f"Attribute type {att} value must have {attsiz(att)} elements, not {len(val)}"
+            )
         valb = b""
         for i in range(attsiz(att)):
             valb += val[i].to_bytes(1, byteorder="little", signed=False)
